@@ -92,8 +92,8 @@ CHECKS["C15"] = {
     "units": [
         unit("./internal", CORE_FILES, "^Harness_C15_Reverse_n[1-4]$", QT, flags={"labels": "^C15:"}),
         unit("./internal", CORE_FILES, "^Harness_C15_Reverse_n[56]$", T, flags={"labels": "^C15:"}),
-        unit("./internal/controller/ledger", ["ctrl/dbmodel.go", "ctrl/lib.go", "ctrl/c25.go", "ctrl/ops.go", "ctrl/ops_gen.go", "ctrl/revert.go", "ctrl/revert_gen.go", "ctrl/refreplay.go", "ctrl/events.go", "ctrl/events_gen.go", "ctrl/c36.go", "ctrl/c28.go", "ctrl/schema.go"], "^Harness_REVC_", QT, flags={"labels": "^C15:", "max-decisions": 4000}, reach=["end"]),
-        unit("./internal/controller/ledger", ["ctrl/dbmodel.go", "ctrl/lib.go", "ctrl/c25.go", "ctrl/ops.go", "ctrl/ops_gen.go", "ctrl/revert.go", "ctrl/revert_gen.go", "ctrl/refreplay.go", "ctrl/events.go", "ctrl/events_gen.go", "ctrl/c36.go", "ctrl/c28.go", "ctrl/schema.go"], "^Harness_REVS_", QT, flags={"labels": "^C15:", "max-decisions": 4000}, reach=["end"]),
+        unit("./internal/controller/ledger", ["ctrl/dbmodel.go", "ctrl/lib.go", "ctrl/c25.go", "ctrl/ops.go", "ctrl/ops_gen.go", "ctrl/revert.go", "ctrl/revert_gen.go", "ctrl/refreplay.go", "ctrl/events.go", "ctrl/events_gen.go", "ctrl/c36.go", "ctrl/c28.go", "ctrl/schema.go", "ctrl/conc.go"], "^Harness_REVC_", QT, flags={"labels": "^C15:", "max-decisions": 4000}, reach=["end"]),
+        unit("./internal/controller/ledger", ["ctrl/dbmodel.go", "ctrl/lib.go", "ctrl/c25.go", "ctrl/ops.go", "ctrl/ops_gen.go", "ctrl/revert.go", "ctrl/revert_gen.go", "ctrl/refreplay.go", "ctrl/events.go", "ctrl/events_gen.go", "ctrl/c36.go", "ctrl/c28.go", "ctrl/schema.go", "ctrl/conc.go"], "^Harness_REVS_", QT, flags={"labels": "^C15:", "max-decisions": 4000}, reach=["end"]),
     ],
 }
 
@@ -115,7 +115,7 @@ CHECKS["C03"] = {
     ],
 }
 
-CTRL_FILES = ["ctrl/dbmodel.go", "ctrl/lib.go", "ctrl/c25.go", "ctrl/ops.go", "ctrl/ops_gen.go", "ctrl/revert.go", "ctrl/revert_gen.go", "ctrl/refreplay.go", "ctrl/events.go", "ctrl/events_gen.go", "ctrl/c36.go", "ctrl/c28.go", "ctrl/schema.go"]
+CTRL_FILES = ["ctrl/dbmodel.go", "ctrl/lib.go", "ctrl/c25.go", "ctrl/ops.go", "ctrl/ops_gen.go", "ctrl/revert.go", "ctrl/revert_gen.go", "ctrl/refreplay.go", "ctrl/events.go", "ctrl/events_gen.go", "ctrl/c36.go", "ctrl/c28.go", "ctrl/schema.go", "ctrl/conc.go"]
 CTRL_PKG = "./internal/controller/ledger"
 DBMODEL_ASSUME = [
     "dbmodel (harness/ctrl/dbmodel.go) stands for the SQL store below the controller's Store interface: tables as Go values, transactional write sets applied on Commit and dropped on Rollback, autocommit on a non-transactional handle, unique keys (ledger,id), (ledger,reference), (ledger,idempotency_key), (ledger,address), non-transactional sequences, 'a failed statement aborts the transaction', transaction_date() constant inside a transaction. It is trusted, not verified (no PostgreSQL in the sandbox)",
@@ -433,4 +433,52 @@ CHECKS["C10"] = {
     "assumptions": ["the migration resolver keeps the last definition of each function", "payload and date renderings are equal on both sides (not encodable: PostgreSQL text functions)", "bun stores an empty schema version as NULL (nullzero tag)"],
     "technique": "string-theory query (z3) over the two framings extracted from the current SQL and Go sources",
     "units": [py_unit("c10_hash", "c10", [])],
+}
+
+
+CONC_ASSUME = DBMODEL_ASSUME + ["concurrent mode of the store model (trusted, documented READ COMMITTED behaviour): a statement sees what is committed when it starts plus its own transaction's writes; SELECT ... FOR UPDATE / upserts / updates take row locks, unique-key inserts and the advisory lock take key locks, all held until the transaction ends; a lock wait re-reads the latest committed version; closing a wait-for cycle is reported to the requester as a deadlock; sequence values are drawn at once and never rolled back; context switches happen before the statements through which transactions can interact and before Commit"]
+
+
+def conc_unit(rx, labels, tiers=QT):
+    return unit(CTRL_PKG, CTRL_FILES, rx, tiers, flags={"labels": labels, "max-decisions": 6000, "max-paths": 200000}, reach=["end"])
+
+
+CHECKS["C13"]["units"].append(conc_unit("^Harness_CONCS?_same_ik_", "^(C13:|no-panic)"))
+CHECKS["C13"]["explanation"] += " Concurrent half: two requests under one idempotency key run as two logical threads on the store model in concurrent mode, every interleaving at statement boundaries: at most one effect; two successes are one write and one hit returning the same log; the loser of a same-input race never gets a business error (insufficient funds) that contradicts the committed outcome — also when the first request spent everything (amount = balance, symbolic); a different input under the key gets a validation/conflict error."
+CHECKS["C13"]["outside"] = "more than two concurrent requests; never-used (account, asset) pairs under concurrency"
+CHECKS["C13"]["assumptions"] = COMMON_ASSUME + CONC_ASSUME
+CHECKS["C15"]["units"].append(conc_unit("^Harness_CONC_two_reverts$", "^(C15:|no-panic)"))
+CHECKS["C15"]["explanation"] += " (d) Two concurrent reverts of one transaction (all interleavings on the store model): at most one succeeds, the other gets already-reverted (or a deadlock), exactly one revert transaction exists."
+CHECKS["C15"]["assumptions"] = COMMON_ASSUME + CONC_ASSUME + SQL_ASSUME
+
+CHECKS["C06"] = {
+    "level": "other",
+    "explanation": "Sequential part: the VM corpus (C23) and the postings path (C25) decide that a committed transaction never takes a non-world source below min(initial balance, -allowance) for symbolic amounts, balances and allowances; the revert clause (non-forced revert refused exactly when some non-world account would end negative, never a panic) is decided by the revert harnesses on 8 transaction shapes. Concurrent part: two writers as logical threads on the store model in concurrent mode, every interleaving at statement boundaries, amounts / balances / allowance symbolic: two spenders of one account (default allowance and 'allowing overdraft up to X'), a spender racing the non-forced revert of the transfer that funded it: the committed balance is never below the allowance, equals the initial balance minus the committed writes, a refused writer is refused for funds (justified by the committed balance) or by a deadlock.",
+    "bounds": {"quick": "2 concurrent writers, all interleavings at the statement boundaries through which transactions interact; 3 race shapes; amounts and balances symbolic in the CONCS harnesses; " + REVERT_SHAPES, "thorough": "same"},
+    "outside": "never-used (account, asset) pairs under concurrency: what the second writer reads after waiting on the first writer's insert hinges on PostgreSQL's snapshot rule for a data-modifying CTE, which this sandbox cannot test — the harness only races on rows that exist (suspicion recorded in DESIGN.md, not claimed either way); 3 and more writers; the row-lock behaviour of PostgreSQL itself (trusted model)",
+    "assumptions": COMMON_ASSUME + CONC_ASSUME,
+    "units": [
+        conc_unit("^Harness_CONCS?_two_spenders", "^(C06:|no-panic)"),
+        conc_unit("^Harness_CONCS?_spend_vs_revert", "^(C06:|no-panic)"),
+        unit(CTRL_PKG, CTRL_FILES, "^Harness_REVS_", QT, flags={"labels": "^(C06:|no-panic)", "max-decisions": 4000}, reach=["end"]),
+        unit(CTRL_PKG, CTRL_FILES, "^Harness_C25S_", QT, flags={"labels": "^(C06:|no-panic)", "max-decisions": 3000}, reach=["end"]),
+    ],
+}
+
+CHECKS["C16"] = {
+    "level": "other",
+    "explanation": "Two writers on disjoint accounts of one ledger run as logical threads on the store model in concurrent mode (sequence values drawn at statement time, never rolled back; commit order recorded by the model), every interleaving, with HASH_LOGS=SYNC and DISABLED. Decided: transaction ids and log ids are unique; with HASH_LOGS=SYNC (advisory lock held from InsertLog to commit) log ids increase in commit order. Transaction ids are drawn by CommitTransaction BEFORE the log lock is taken and nothing serialises them with the commit: the check finds the interleaving in which the later commit carries the smaller transaction id (recorded finding). The unique (ledger, id) keys of transactions and logs are resolved from the migrations by the C14 machinery.",
+    "bounds": {"quick": "2 concurrent writers on one ledger, all interleavings", "thorough": "same"},
+    "outside": "two ledgers sharing a bucket (per-ledger sequence names are visible in the captured SQL: \"transaction_id_<id>\", \"log_id_<id>\", but not race-checked); rollbacks between the writers; PostgreSQL's sequence implementation",
+    "assumptions": COMMON_ASSUME + CONC_ASSUME,
+    "units": [conc_unit("^Harness_CONC_ids_", "^(C16:|no-panic)")],
+}
+
+CHECKS["C09"] = {
+    "level": "other",
+    "explanation": "Linearity of the chain: InsertLog of the real store takes pg_advisory_xact_lock(ledger id) iff HASH_LOGS=SYNC (captured SQL per feature set, checked under C35's captures); on the store model in concurrent mode, where set_log_hash chains a new log on the log with the greatest id visible to the statement, two concurrent writers in every interleaving never chain from the same predecessor and the chain follows log-id order. The content of the hash (framing vs. the Go function) is C10; its schema-version gap is recorded there.",
+    "bounds": {"quick": "2 concurrent writers, all interleavings, HASH_LOGS=SYNC", "thorough": "same"},
+    "outside": "the hash value itself (opaque in the model: predecessor id only); recomputation from exported logs; more than two writers; the advisory-lock implementation of PostgreSQL",
+    "assumptions": COMMON_ASSUME + CONC_ASSUME,
+    "units": [conc_unit("^Harness_CONC_ids_sync$", "^(C09:|no-panic)")],
 }
